@@ -8,11 +8,27 @@
 //     ServeCOAP under the deterministic scheduler.
 package main
 
-import "verif/ev"
+import (
+	"os"
+	"strings"
+
+	"verif/ev"
+	"verif/mcx"
+)
 
 func main() {
 	r := ev.Start("C17", "model_checking")
-	runMatching(r)
+	concReplay := false
+	if f := ev.Arg("replay"); f != "" {
+		b, _ := os.ReadFile(f)
+		concReplay = strings.Contains(string(b), `"scenario"`)
+	}
+	if !mcx.IsWorker() && !concReplay {
+		runMatching(r)
+		if ev.Arg("replay") != "" {
+			r.Finish()
+		}
+	}
 	runConcurrency(r)
 	r.Finish()
 }
